@@ -689,6 +689,11 @@ class Association(threading.Thread):
                 with set_timer_resolution(self._timer_resolution):
                     self._run_reactor()
 
+        # The reactor has ended for good: a send_*() or release() call that is
+        #   waiting for it to pause must not wait forever (the reactor may
+        #   have reset the flag after kill() set it)
+        self._is_paused = True
+
     def _run_reactor(self) -> None:
         """Run the ``Association`` acceptor reactor loop.
 
